@@ -32,6 +32,7 @@ func TestProp(t *testing.T) {
 	agg := newAgg(p.ID)
 	statsPath := os.Getenv("VERIF_STATS")
 	failPath := os.Getenv("VERIF_FAIL")
+	curPath := os.Getenv("VERIF_CUR")
 	defer func() { agg.flush(statsPath) }()
 	firstSig := ""
 	rapid.Check(t, func(rt *rapid.T) {
@@ -41,7 +42,16 @@ func TestProp(t *testing.T) {
 			rt.Fatalf("harness: program not serialisable: %v", err)
 		}
 		c := newCase(tier, true)
+		if curPath != "" && p.RecordCur != nil && p.RecordCur(prog) {
+			// the process may be killed by the code under test (fatal error, os.Exit, race detector):
+			// leave the program where the driver finds it
+			writeFail(curPath, p.ID, &Violation{Sig: p.ID + "/process-died", Msg: "the process died while executing this program"}, progJSON)
+			agg.flushLight(statsPath)
+		}
 		v := safeExec(p, prog, c)
+		if curPath != "" && p.RecordCur != nil {
+			os.Remove(curPath)
+		}
 		if v == nil {
 			agg.add(progJSON, c)
 			return
